@@ -374,6 +374,9 @@ def finish(prop, tier, res, check, rule, t0, exhaustive=True, extra=None, assump
         lines.append("VIOLATION property=%s replay=%s" % (prop, path))
         lines.append("  key=%s count=%d :: %s" % (key, n, v.msg[:300]))
         vio_out.append({"key": key, "count": n, "msg": v.msg[:300], "replay": path})
+    if unrepro:
+        with open(os.path.join(scratch_dir(), "unrepro-%s.json" % prop), "w") as f:
+            json.dump([{"key": k, "count": n, "v": v.to_json()} for k, n, v in unrepro], f, indent=1)
     for key, n, v in unrepro:
         lines.append("NOTE: property=%s unreproducible in isolation (ignored): %s x%d" % (prop, key, n))
     cov = {
